@@ -57,9 +57,17 @@ Definition tr2jac_sb_ref (A : M44 T) : M66 T :=
   let Rt := mtr33 (t2r3 A) in block66 Rt (mtr33 (mmul33 O (skew3 O (transl3 A)) (t2r3 A))) (Z33 O) Rt.
 Definition Ad_ref (A : M44 T) : M66 T :=
   let R := t2r3 A in block66 R (mmul33 O (skew3 O (transl3 A)) R) (Z33 O) R.
+(* elementwise maps (pose OP scalar acts elementwise on the matrix) *)
+Definition mmap22 (f : T -> T) (A : M22 T) : M22 T := let '((a,b),(c,d)) := A in ((f a, f b), (f c, f d)).
+Definition mmap33 (f : T -> T) (A : M33 T) : M33 T :=
+  let '((a00,a01,a02),(a10,a11,a12),(a20,a21,a22)) := A in
+  ((f a00, f a01, f a02), (f a10, f a11, f a12), (f a20, f a21, f a22)).
+Definition mmap44 (f : T -> T) (A : M44 T) : M44 T :=
+  let '((a00,a01,a02,a03),(a10,a11,a12,a13),(a20,a21,a22,a23),(a30,a31,a32,a33)) := A in
+  ((f a00, f a01, f a02, f a03), (f a10, f a11, f a12, f a13), (f a20, f a21, f a22, f a23), (f a30, f a31, f a32, f a33)).
 End Ref.
 
 Create HintDb smref discriminated.
 #[export] Hint Unfold rotx_ref roty_ref rotz_ref zero3 r2t3 transl_ref eul2r_ref rpy_zyx_ref rpy_xyz_ref rpy_yxz_ref vscale3k
   as_pose4 as_pose3 trinv_g trinv2_ref pt3 pt2 madd44 skewa6_ref skewa3_ref skew1_ref delta2tr_ref tr2delta_ref vexa4_ref
-  vex2_ref vexa3_ref tr2jac_ref tr2jac_sb_ref Ad_ref : smref.
+  vex2_ref vexa3_ref tr2jac_ref tr2jac_sb_ref Ad_ref mmap22 mmap33 mmap44 : smref.
